@@ -77,7 +77,7 @@ EXTRA = {
  "C06": " Also: staged Insert/Build with the same call before and after each rebuild, tries differing in one pattern used alternately on reused text buffers, invalid-byte patterns, long patterns/texts/fan-out, cold-start child processes. Keywords that are runs of one rune on a longer run (a rune inside 127..4096 occurrences at once).",
  "C07": " Also: argument arenas overwritten after each call with every result kept and re-read, inputs of 16 B..256 KiB beside every power of two, cold-start child processes per entry point.",
  "C08": " Also: dst/src as regions of one arena, key/iv buffers reused in place, MiB-sized messages in place, cold-start child processes (decrypt before any encrypt).",
- "C09": " Also: arguments lying back to back in one caller buffer, secret buffers overwritten in place between uninterrupted calls, MiB-sized messages, inputs unchanged after Decrypt, cold-start child processes. Plaintext, secret, ciphertext and additional data as defined string / []byte types.",
+ "C09": " Also: arguments lying back to back in one caller buffer, secret buffers overwritten in place between uninterrupted calls, MiB-sized messages, inputs unchanged after Decrypt, cold-start child processes. Plaintext, secret, ciphertext and additional data as defined string / []byte types; MiB-sized CTR streams whose counter tail runs over in mid-stream (salt searched by the harness / steered through the source reader).",
  "C10": " Also: unobserved-operation windows, requested capacities around every power of two up to 2^20 (also under GOMAXPROCS 3/5/7), element types other than int, cold-start child processes.",
  "C11": " Also: free-running streams over element types other than int (80..1024-byte structs, strings, pointers, interfaces) with several consumers blocked in PopWait(-1): exactly-once, per-producer order per consumer, quiescent length.",
  "C12": " Also: multi-hundred-key writes against whole-map snapshots, kept All() sequences, scribbled Keys/Values results, maps of 1100..4200 keys emptied by bulk Delete next to single-writer keys (conservation oracle).",
